@@ -31,6 +31,7 @@ import SwcVerif.Model.AlgoRunAffine
 import SwcVerif.Model.AlgoRunRodrigues
 import SwcVerif.Model.AlgoRunViews
 import SwcVerif.Model.AlgoRunHelpers
+import SwcVerif.Model.AlgoRunSortWrap
 import SwcVerif.Model.AlgoRunCat
 import SwcVerif.Model.AlgoRunAssemble
 import SwcVerif.Model.AlgoRunLMeasure
@@ -114,6 +115,7 @@ def dispatch (op : String) (args : List String) : String :=
   | "gviews" => AlgoRun.handleViews args
   | "gslice" => AlgoRun.handleSlice args
   | "ghelpers" => AlgoRun.handleHelpers args
+  | "gsorttree" => AlgoRun.handleSortTree args
   | "gcat" => AlgoRun.handleCat args
   | "glm" => AlgoRun.handleLm args
   | "glmgeo" => AlgoRun.handleLmGeo args
